@@ -22,7 +22,10 @@ func init() {
 		},
 		Judge: func(sc *Scenario, rr *RunResult, env *core.Env) (string, string) {
 			if sc.Kind == "C09:blocking" {
-				return judgeC09Blocking(sc, rr, env)
+				if sig, msg := judgeC09Blocking(sc, rr, env); sig != "" {
+					return sig, msg
+				}
+				return judgeC09BlockingLin(sc, rr, env)
 			}
 			return judgeLockstep("C09")(sc, rr, env)
 		},
@@ -104,7 +107,29 @@ func genListCmd(g *lsGen) {
 		// exercised by the dedicated C09 blocking scenario)
 		e, ok := g.m.DBs[0].Keys[k]
 		if ok && e.T == refmodel.TList && len(e.L) > 0 {
-			g.try(bs(pick(r, []string{"blpop", "brpop"}), k, "1"))
+			if r.Bool(0.5) {
+				// several keys: the first one, in argument order, that holds a list
+				// with data is served (missing keys before it are skipped)
+				a := bs(pick(r, []string{"blpop", "brpop"}))
+				ks := []string{k}
+				for i := 0; i < 1+r.Intn(2); i++ {
+					k2 := g.key()
+					if e2, ok2 := g.m.DBs[0].Keys[k2]; ok2 && e2.T != refmodel.TList {
+						continue // (a key of another type: C04's subject)
+					}
+					ks = append(ks, k2)
+				}
+				for i := len(ks) - 1; i > 0; i-- {
+					j := r.Intn(i + 1)
+					ks[i], ks[j] = ks[j], ks[i]
+				}
+				for _, x := range ks {
+					a = append(a, B(x))
+				}
+				g.try(append(a, B("1")))
+			} else {
+				g.try(bs(pick(r, []string{"blpop", "brpop"}), k, "1"))
+			}
 		} else {
 			g.try(bs("del", k))
 		}
